@@ -67,11 +67,12 @@ def operator_clause(model, rep, funcs):
                 if lhs is None or norm_src(lhs) != want_self:
                     ok = False
                     det.append(f"left operand `{norm_src(lhs) if lhs is not None else None}` is not `{want_self}`")
-                if params != conv:
+                if len(params) != len(conv) or len(set(params)) != len(params):
+                    # the lambdas are only ever called positionally (provide(scale) / convert(image, scale)): their names are free, their number is not
                     ok = False
-                    det.append(f"lambda parameters {params}, required {conv}")
+                    det.append(f"lambda parameters {params}, required {len(conv)} positional parameters ({conv})")
                 r = norm_src(rhs) if rhs is not None else ""
-                rhs_ok = r in ("other", "other(scale)", "other(x, scale)")
+                rhs_ok = r in ("other", f"other({params[-1]})", f"other({', '.join(params)})") if params else False
                 if not rhs_ok:
                     ok = False
                     det.append(f"right operand `{r}`")
@@ -170,11 +171,19 @@ def composition_clause(model, rep, funcs):
     f = funcs.get(PC + "ImageConverter.compose")
     if f is not None:
         lam = [n for n in ast.walk(f.node) if isinstance(n, ast.Lambda)]
-        bodies = sorted(norm_src(l.body) for l in lam)
+        def _posnames(l):
+            # lambda bodies with the parameters renamed p0, p1 (they are called positionally)
+            mp = {a.arg: f"p{i}" for i, a in enumerate(l.args.args)}
+            b_ = ast.parse(norm_src(l.body), mode="eval").body
+            for x in ast.walk(b_):
+                if isinstance(x, ast.Name) and x.id in mp:
+                    x.id = mp[x.id]
+            return norm_src(b_)
+        bodies = sorted(_posnames(l) for l in lam)
         rep.instance("COMP", f.loc())
-        ok = bodies == ["self(other(scale), scale)", "self(other(x, scale), scale)"] and Matcher(f).all_of([
-            "if isinstance(other, ImageProvider):\n    $fn = lambda scale: self(other(scale), scale)\nelif isinstance(other, ImageConverter):\n"
-            "    $fn = lambda x, scale: self(other(x, scale), scale)\nelse:\n    ...", "other.__class__($fn)"])[0]
+        ok = bodies == ["self(other(p0), p0)", "self(other(p0, p1), p1)"] and Matcher(f).all_of([
+            "if isinstance(other, ImageProvider):\n    $fn = lambda $s: self(other($s), $s)\nelif isinstance(other, ImageConverter):\n"
+            "    $fn = lambda $x, $s2: self(other($x, $s2), $s2)\nelse:\n    ...", "other.__class__($fn)"])[0]
         if not ok:
             # the same rule by arity: the one-argument lambda (provider case) and the two-argument lambda (converter case) nest self around other, each is
             # what other.__class__(...) wraps, the provider lambda lives where other is known to be an ImageProvider
